@@ -98,6 +98,7 @@ type pType struct {
 	Raw             string      `json:"raw,omitempty"`             // further declarations printed verbatim after this one
 	ConstsElsewhere int         `json:"constsElsewhere,omitempty"` // enum: this many trailing constants are declared in a sibling file of the package
 	ConstDocs       []string    `json:"constDocs,omitempty"`       // enum: a doc comment line per constant ("" = none), parallel to Consts
+	External        bool        `json:"external,omitempty"`        // declared by the standard library: known to the model, not printed
 }
 
 // pSite: ONE annotation line placed in the doc comment of one construct (C16: malformed JSON5 is reported wherever
@@ -218,6 +219,9 @@ func writeProject(p pProject, dir string) (map[string]string, error) {
 	}
 	ind := p.Indent
 	for _, t := range p.Types {
+		if t.External {
+			continue
+		}
 		fb := get(t.Pkg, t.File)
 		var sb strings.Builder
 		for _, d := range t.Doc {
